@@ -131,6 +131,10 @@ def term_pool(items, oracle, rng):
             pool.append(("quoted", sf))
         name = oracle.by_path[t["node"].casefold()].name
         pool.append(("star", name[:rng.randrange(2, max(3, len(name)))]))
+        # a value or extension is not a term of the tag's schema path
+        for comp in (t.get("suffix") or "").split("/"):
+            if comp and all(c in WORD_OK for c in comp) and "#" not in comp:
+                pool.append(("bare", comp))
     for _ in range(4):
         n = rng.choice(oracle.nodes)
         pool.append(("bare", n.name))
@@ -390,7 +394,7 @@ def run_shard(shard, rec):
         text = annot.render(items, rng)
         perm_text = annot.render(annot.permute(items, rng), rng)
         pool = term_pool(items, oracle, rng)
-        terms = rng.sample(pool, min(len(pool), 8))
+        terms = rng.sample(pool, min(len(pool), 10))
         queries = [gen_query(rng, pool, rng.randrange(1, 5)) for _ in range(shard["queries"])]
         bad = []
         for q in rng.sample(queries, min(20, len(queries))):
